@@ -16,6 +16,7 @@ import (
 	"math/rand"
 	"os"
 	"runtime"
+	"runtime/pprof"
 	"sort"
 	"sync"
 
@@ -96,6 +97,11 @@ func main() {
 		"a lease request that is refused although it could have been granted (e.g. lost compare-and-set) is not a violation: the statement is 'succeeds only if'; "+
 			"such behaviour shows up only in the coverage floors (grants by renewal / takeover / own return must be observed)")
 
+	if p := os.Getenv("C15_CPUPROF"); p != "" {
+		f, _ := os.Create(p)
+		pprof.StartCPUProfile(f)
+		defer pprof.StopCPUProfile()
+	}
 	if r.Replay != "" {
 		replay(r)
 		r.Finish()
@@ -129,6 +135,7 @@ func main() {
 	for _, c := range []string{"stress_lease_ok_unclaimed", "stress_lease_ok_renew_own", "stress_lease_ok_takeover_expired", "stress_return_ok_own"} {
 		r.FloorCount(c, int64(r.Pick(20, 300)))
 	}
+	pprof.StopCPUProfile()
 	r.Finish()
 }
 
